@@ -297,6 +297,16 @@ pub fn run_writer(j: &Value, t: &mut Trace, run_id: usize) -> Option<(Vec<u8>, V
             Ok(Ok(())) => {
                 pos += n;
                 t.emit(json!({"ev": "write", "n": n as i64, "ret": "ok", "st": st}));
+                // std::io::Write::flush on the byte front ends between writes ("flush_after": write indices): flushing is not
+                // finishing - the encoded file must not depend on it
+                if j["flush_after"].as_array().is_some_and(|a| a.iter().any(|x| x.as_u64() == Some(wi as u64))) {
+                    let fr = catch(|| match &mut w {
+                        AnyWriter::ByteLe(w) => w.flush().map_err(|e| e.to_string()),
+                        AnyWriter::ByteBe(w) => w.flush().map_err(|e| e.to_string()),
+                        _ => Ok(()),
+                    });
+                    t.emit(json!({"ev": "flush", "ret": match fr { Ok(Ok(())) => "ok", Ok(Err(_)) => "err", Err(_) => "panic" }}));
+                }
             }
             Ok(Err(e)) => {
                 t.emit(json!({"ev": "write", "n": n as i64, "ret": "err", "msg": e, "st": st}));
